@@ -123,6 +123,7 @@ macro_rules! export_safe_arithmetic_vector_x_value_op {
     ) => {
         #[doc = concat!("`", stringify!($t), "` ", $desc)]
         pub fn $const_name<const DIMS: usize>(value: $t, a: &[$t], result: &mut [$t]) {
+            assert_eq!(a.len(), DIMS, "Input vector a does not match size DIMS");
             assert_eq!(
                 a.len(),
                 result.len(),
@@ -176,6 +177,7 @@ macro_rules! export_safe_arithmetic_vector_x_vector_op {
     ) => {
         #[doc = concat!("`", stringify!($t), "` ", $desc)]
         pub fn $const_name<const DIMS: usize>(a: &[$t], b: &[$t], result: &mut [$t]) {
+            assert_eq!(a.len(), DIMS, "Input vector a does not match size DIMS");
             assert_eq!(
                 a.len(),
                 b.len(),
